@@ -124,7 +124,10 @@ def run(repo, rep):
     # slice of all (the generator DMAs slice k into buffer k % n with the slice's real size) [rule shared with C02-f]
     from . import c02
 
-    rep.run_borrowed(c02, {"C02-f": "C03-c"}, repo, only_sites=("propose_weight_buffering", "generate_high_level_commands_for_sched_op"))
+    rep.run_borrowed(c02, {"C02-f": "C03-c"}, repo, only_sites=("propose_weight_buffering", "generate_high_level_commands_for_sched_op", "encode_weight_and_scale_tensor"))
+    from . import c08 as _c08
+
+    rep.run_borrowed(_c08, {"C08-e": "C03-c"}, repo, only_sites=("encode_weight_and_scale_tensor",))
     # scale stream region and Memcpy outputs kept linear [rules shared with C02-k]
     rep.run_borrowed(c02, {"C02-k": "C03-c"}, repo, only_sites=("create_weights", "_avoid_nhcwb16_for_memory_only", "remove_SplitSliceRead"))
     st_ = sch.func("Scheduler.propose_schedule_striping")
@@ -398,6 +401,7 @@ def run(repo, rep):
     # ---------------------------------------------------------------- h: a PAD lowered to copies defines every byte of its OFM
     rep.clause("C03-i", "after a Reshape has been bypassed no later rewrite re-derives an operator's OFM shape from the re-shaped tensor (the operator would read IFM positions that its producer never wrote) [rule shared with C02-m]")
     c02.rule_shape_view(repo, rep, "C03-i")
+    rule_copy_elision(repo, rep)
     rep.clause("C03-h", "convert_pad: the copy of the IFM and the up to four border fills tile the padded OFM exactly, for every combination of pad widths (finite evaluation of the five (shape, write offset) pairs)")
     _rule_convert_pad(repo, rep)
     from . import c04, c08
@@ -477,3 +481,23 @@ def _rule_convert_pad(repo, rep):
             extra = sorted(k_ for k_, v in cover.items() if v != 1 or k_ not in want)[:3]
             bad = f"pads (top {top}, left {left}, bottom {bottom}, right {right}) on a {h}x{w} IFM: rows/cols never written {missing}, written twice or outside {extra}"
     rep.check(bad is None, "C03-h", site, f"the IFM copy and the border fills tile the OFM exactly ({n} pad / shape combinations)", (bad or "") + ": the consumer of the padded tensor reads bytes no operation defined")
+
+
+def rule_copy_elision(repo, rep):
+    """(j) the copy that implements a memory-only operator is replaced by a NOP only if source and destination are the same bytes: the same
+    offset *and* the same memory (offsets are relative to a region: in Dedicated_Sram a DRAM tensor and an SRAM tensor can both sit at 0).
+    The test that selects the DMA is a disjunction that contains the address inequality and a memory-area (or region) inequality."""
+    rep.clause("C03-j", "a feature-map copy is elided only for equal addresses in the same memory: the DMA is selected by `src_addr != dst_addr or <memory areas differ>`")
+    hg = repo.mod("high_level_command_stream_generator")
+    fn = hg.func("dma_feature_map_if_necessary")
+    sel = [i for i in ast.walk(fn) if isinstance(i, ast.If) and any(isinstance(x, ast.Call) and call_name(x) == "DMA" for b in i.body for x in ast.walk(b))
+           and any(isinstance(x, ast.Call) and call_name(x) == "NOP" for b in i.orelse for x in ast.walk(b))]
+    if len(sel) != 1:
+        raise AnalysisError("dma_feature_map_if_necessary: the DMA / NOP selection was not found")
+    t = sel[0].test
+    dis = [str(norm(v)) for v in (t.values if isinstance(t, ast.BoolOp) and isinstance(t.op, ast.Or) else [t])]
+    has_addr = any(d in ("src_addr != dst_addr", "dst_addr != src_addr") for d in dis)
+    has_area = any(("mem_area" in d or "region" in d) and "!=" in d for d in dis)
+    rep.check(has_addr and has_area, "C03-j", "ethosu/vela/high_level_command_stream_generator.py:dma_feature_map_if_necessary", "DMA unless the addresses are equal and the memories are the same",
+              f"selected by `{str(norm(t))}`: with equal offsets in different memories (Dedicated_Sram: both at 0) the copy becomes a NOP and the destination is never written")
+    rep.floor("C03-j", 1)
